@@ -362,9 +362,26 @@ class Retarget:
             elif len(defs) > 1 and all(d.stmt is not None and _assign_parts(d.stmt) is not None for d in defs) and len({A.unparse(_assign_parts(d.stmt)[1]) for d in defs}) == 1:
                 # the same expression on every path (`r = tuple(L)` at the end of each arm)
                 a = _assign_parts(defs[0].stmt)[1]
+        self.more: List[str] = []  # further carriers, one per arm (`r = tuple(L1)` / `r = tuple(L2)`)
+        if isinstance(a, ast.Name):
+            defs_ = [d for d in self.cfg.reaching_defs(self.call, a.id)]
+            vals_ = [_assign_parts(d.stmt)[1] for d in defs_ if d.stmt is not None and _assign_parts(d.stmt) is not None]
+            if len(defs_) > 1 and len(vals_) == len(defs_) and all(isinstance(v, ast.Call) and isinstance(v.func, ast.Name) and v.func.id == "tuple" and len(v.args) == 1 and isinstance(v.args[0], ast.Name) for v in vals_):
+                # every arm ends with r = tuple(<its own list copy>): all the copies must come from the same tuple of
+                # the same block; the first one is analysed in full, the others contribute their mutations
+                srcs = set()
+                for v in vals_:
+                    ds = [d for d in self.cfg.nodes if d.stmt is not None and _assign_parts(d.stmt) is not None and any(isinstance(t, ast.Name) and t.id == v.args[0].id for t in (_assign_parts(d.stmt)[0] or []))]
+                    for d in ds:
+                        vv = _assign_parts(d.stmt)[1]
+                        if isinstance(vv, ast.Call) and isinstance(vv.func, ast.Name) and vv.func.id == "list" and len(vv.args) == 1:
+                            srcs.add(A.unparse(vv.args[0]))
+                if len(srcs) == 1:
+                    a = vals_[0]
+                    self.more = [v.args[0].id for v in vals_[1:]]
         if isinstance(a, ast.Call) and isinstance(a.func, ast.Name) and a.func.id == "tuple" and len(a.args) == 1 and isinstance(a.args[0], ast.Name):
             self.L = a.args[0].id
-            defs = [d for d in self.cfg.reaching_defs(self.call, self.L)]
+            defs = [d for d in self.cfg.reaching_defs(defs_[0].stmt if self.more else self.call, self.L)]
             real = [d for d in defs if d.stmt is not None]
             if len(real) != 1 or len(defs) != 1:
                 self.problems.append(f"list {self.L} has {len(defs)} reaching definitions")
@@ -446,18 +463,19 @@ class Retarget:
         out = []
         if self.L is None:
             return out
+        names_ = {self.L} | set(getattr(self, "more", []))
         for s in A.walk_no_nested(self.fn.node):
             if isinstance(s, ast.Assign):
                 for t in s.targets:
-                    if isinstance(t, ast.Subscript) and isinstance(t.value, ast.Name) and t.value.id == self.L:
+                    if isinstance(t, ast.Subscript) and isinstance(t.value, ast.Name) and t.value.id in names_:
                         out.append((s, "slice-store" if isinstance(t.slice, ast.Slice) else "store"))
-            elif isinstance(s, ast.AugAssign) and isinstance(s.target, ast.Name) and s.target.id == self.L:
+            elif isinstance(s, ast.AugAssign) and isinstance(s.target, ast.Name) and s.target.id in names_:
                 out.append((s, "augassign"))
             elif isinstance(s, ast.Delete):
                 for t in s.targets:
-                    if isinstance(t, ast.Subscript) and isinstance(t.value, ast.Name) and t.value.id == self.L:
+                    if isinstance(t, ast.Subscript) and isinstance(t.value, ast.Name) and t.value.id in names_:
                         out.append((s, "del"))
-            elif isinstance(s, ast.Call) and isinstance(s.func, ast.Attribute) and isinstance(s.func.value, ast.Name) and s.func.value.id == self.L and s.func.attr in LIST_MUTATORS:
+            elif isinstance(s, ast.Call) and isinstance(s.func, ast.Attribute) and isinstance(s.func.value, ast.Name) and s.func.value.id in names_ and s.func.attr in LIST_MUTATORS:
                 out.append((s, s.func.attr))
         return out
 
@@ -466,6 +484,9 @@ class Retarget:
         n = self.cfg.node_of(stmt)
         if n is None or self.Ldef is None or self.node is None:
             return True
+        if getattr(self, "more", None):
+            # several carriers: a mutation is relevant when the call is reachable from it
+            return self.node in self.cfg.reachable(n) or n is self.node
         after_def = n in self.cfg.reachable(self.Ldef, avoid=lambda x: x is self.Ldef)
         before_call = self.node in self.cfg.reachable(n, avoid=lambda x: x is self.Ldef) or n is self.node
         return after_def and before_call
@@ -1452,7 +1473,11 @@ def store12(ctx) -> List[Ob]:
                 out.append(ok("STORE-12", fn.qualname, A.alpha_key(A.enclosing_stmt(n) or n), ctx.where(fn, n), "read by a method that no restructuring / editing / IO / code-generation path calls", nontrivial=False))
                 continue
             par = A.parent(n)
-            key = A.alpha_key(A.enclosing_stmt(n) or n)
+            # keyed by the expression that consumes the raw tuple (the call / comparison / loop header it is an
+            # operand of), not by the whole statement: naming the result differently, or building a table of
+            # such results, is the same read
+            cons = par if isinstance(par, (ast.Call, ast.Compare, ast.BinOp, ast.Subscript, ast.Starred)) else None
+            key = "raw successors consumed by " + A.alpha_key(cons) if cons is not None else A.alpha_key(A.enclosing_stmt(n) or n)
             where = ctx.where(fn, n)
             # (a) list(X._jump_targets) / element-wise comprehension feeding replace_jump_targets in this function
             is_copy = (isinstance(par, ast.Call) and isinstance(par.func, ast.Name) and par.func.id in ("list", "tuple") and par.args and par.args[0] is n) or isinstance(par, ast.comprehension)
